@@ -87,6 +87,8 @@ def judge(kind, layout, faults, persistent, tag):
 
 def _single(kind, layout, k, e):
     with rt.untraced():
+        if run_length(kind, layout) >= 72:
+            return rt.fail('C17:bound-too-small', 'an unfaulted run makes %d system calls; fault indices only range over 0..71' % run_length(kind, layout))
         rt.begin((K.KINDS[kind], LAYOUTS[layout], k, errno.errorcode[ERRNOS[e]]))
         return judge(kind, layout, {k: ERRNOS[e]}, False, 'single')
 
@@ -103,35 +105,40 @@ def _pair(kind, layout, k1, e1, dk, e2):
         return judge(kind, layout, {k1: ERRNOS[e1], k1 + 1 + dk: ERRNOS[e2]}, False, 'pair')
 
 
+_LEN = {}
+
+
 def run_length(kind, layout):
-    return _run(kind, layout, None, False)[0].nops
+    if (kind, layout) not in _LEN:
+        _LEN[(kind, layout)] = _run(kind, layout, None, False)[0].nops
+    return _LEN[(kind, layout)]
 
 
 def w_single(kind: int, layout: int, k: int, e: int) -> str:
     """
     pre: PARTITION is None or (kind == PARTITION[0] and layout == PARTITION[1])
-    pre: 0 <= kind < 6 and 0 <= layout < 6 and 0 <= k < 120 and 0 <= e < 10
+    pre: 0 <= kind < 6 and 0 <= layout < 6 and 0 <= k < 72 and 0 <= e < 10
     post: _ == ''
     """
-    return _single(rt.sel(kind, 6), rt.sel(layout, 6), rt.sel(k, 120), rt.sel(e, 10))
+    return _single(rt.sel(kind, 6), rt.sel(layout, 6), rt.sel(k, 72), rt.sel(e, 10))
 
 
 def w_persistent(kind: int, layout: int, k: int, e: int) -> str:
     """
     pre: PARTITION is None or (kind == PARTITION[0] and layout == PARTITION[1])
-    pre: 0 <= kind < 6 and 0 <= layout < 6 and 0 <= k < 120 and 0 <= e < 10
+    pre: 0 <= kind < 6 and 0 <= layout < 6 and 0 <= k < 72 and 0 <= e < 10
     post: _ == ''
     """
-    return _persistent(rt.sel(kind, 6), rt.sel(layout, 6), rt.sel(k, 120), rt.sel(e, 10))
+    return _persistent(rt.sel(kind, 6), rt.sel(layout, 6), rt.sel(k, 72), rt.sel(e, 10))
 
 
 def w_pair(kind: int, layout: int, k1: int, e1: int, dk: int, e2: int) -> str:
     """
     pre: PARTITION is None or (kind == PARTITION[0] and layout == PARTITION[1])
-    pre: 0 <= kind < 6 and 0 <= layout < 6 and 0 <= k1 < 120 and 0 <= e1 < 10 and 0 <= dk < 12 and 0 <= e2 < 10
+    pre: 0 <= kind < 6 and 0 <= layout < 6 and 0 <= k1 < 64 and 0 <= e1 < 4 and 0 <= dk < 6 and 0 <= e2 < 4
     post: _ == ''
     """
-    return _pair(rt.sel(kind, 6), rt.sel(layout, 6), rt.sel(k1, 120), rt.sel(e1, 10), rt.sel(dk, 12), rt.sel(e2, 10))
+    return _pair(rt.sel(kind, 6), rt.sel(layout, 6), rt.sel(k1, 64), rt.of([0, 3, 4, 5], e1), rt.sel(dk, 6), rt.of([0, 3, 4, 7], e2))
 
 
 def obligations(tier):
@@ -142,12 +149,12 @@ def obligations(tier):
         parts = [(k, l) for k in range(6) for l in range(6)]
     obs = [
         CH('W_single_fault', MOD, 'w_single', timeout=1800, partitions=parts, engine='W', regime='selector', encodes=enc,
-           stubs=K.STUBS, bounds='fault index k in 0..119 (runs are shorter: indices beyond the run inject nothing) x 10 errnos x '
+           stubs=K.STUBS, bounds='fault index k in 0..71 (runs are shorter: indices beyond the run inject nothing) x 10 errnos x '
                                  '%d kinds x 6 candidate layouts' % len(set(p[0] for p in parts))),
         CH('W_persistent_fault', MOD, 'w_persistent', timeout=1800, partitions=parts, engine='W', regime='selector', encodes=enc,
            stubs=K.STUBS, bounds='same space; after the first injection every later call of the same kind in the same directory fails too'),
     ]
     if tier == 'thorough':
-        obs.append(CH('W_fault_pairs', MOD, 'w_pair', timeout=7000, partitions=parts, twin=False, engine='W', regime='selector',
-                      encodes=enc, stubs=K.STUBS, bounds='pairs (k1,e1),(k1+1+dk,e2), dk<12: 120 x 10 x 12 x 10 per kind/layout'))
+        obs.append(CH('W_fault_pairs', MOD, 'w_pair', timeout=7000, partitions=[(k, l) for k in (0, 2, 3) for l in range(6)], twin=False, engine='W', regime='selector',
+                      encodes=enc, stubs=K.STUBS, bounds='pairs (k1,e1),(k1+1+dk,e2): k1<64, dk<6, e1 in {EACCES,ENOSPC,EIO,ENAMETOOLONG}, e2 in {EACCES,ENOSPC,EIO,EEXIST}; 3 kinds x 6 layouts'))
     return obs
